@@ -302,6 +302,10 @@ def run(ctx):
     r05e(ctx)
     r05f(ctx)
     r05g(ctx)
+    # every chunk of Paragraph(text) goes through Element.append: a substitution there that touches more than U+0020 changes the text (part of a rule shared with C16)
+    from .c16 import r16i
+    r16i(ctx, children=False)
+    ctx.rules["R16i"].floor = 1
 
 
 from ..selftest import Seed, unparse_seed  # noqa: E402
